@@ -329,6 +329,15 @@ func c16Prop(c *sim.Case) {
 	bgSecret, bgCA, bgKeys := pickBool("bg-secret"), pickBool("bg-ca"), pickBool("bg-keys")
 	c.Logf("workload: %d goroutines x %d ops, store=%s, background: secret=%v ca=%v keys=%v", nG, perG, storeKind, bgSecret, bgCA, bgKeys)
 
+	// a few sessions per tenant that SEVERAL goroutines use at the same time (parallel requests of one browser)
+	shared := map[string][]string{}
+	for _, t := range tenants {
+		for k := 0; k < 2; k++ {
+			if ck := login(t, fmt.Sprintf("shared%d", k)); ck != "" {
+				shared[t.name] = append(shared[t.name], ck)
+			}
+		}
+	}
 	done := make(chan struct{})
 	var bgFired int64
 	var bg sync.WaitGroup
@@ -414,7 +423,12 @@ func c16Prop(c *sim.Case) {
 			<-start
 			t := tenants[plans[g].tenant]
 			cookie := ""
-			for _, k := range plans[g].kinds {
+			for i, k := range plans[g].kinds {
+				if sh := shared[t.name]; len(sh) > 0 && (g+i)%3 == 0 && k != 3 {
+					// every third request goes out under a session that other goroutines are using right now
+					check(t, "/app", sh[(g+i)%len(sh)])
+					continue
+				}
 				switch k {
 				case 0:
 					check(t, "/app", "")
@@ -494,7 +508,7 @@ func TestC16(t *testing.T) {
 	if !raceEnabled {
 		t.Fatalf("C16 must be built with -race")
 	}
-	r.Rule = "workload programs: 1-3 OIDC filters (static or discovered endpoints, static JWKS or fetcher with 1 s refresh, literal secret or Kubernetes secret reference, optional watched CA file with 10-30 ms refresh) on the shared memory store or Redis, assembled with the real session-store factory, TLS pool and JWKS provider behind server.ExtAuthZFilter.Check; 8-64 goroutines x 3-12 requests of kinds {no cookie, login + fresh session, wait for expiry + refresh, logout, excluded path}; background goroutines: secret reconcile every 3 ms, CA file rewrite every 15 ms, key publication every 20 ms. Built with -race, GORACE halt_on_error=0. Oracle: race-detector reports canonicalised to the unordered pair of innermost authservice frames with access kinds; recovered panics; a 120 s watchdog (expiry = inconclusive, exit 2). Non-trivial = at least two checks were in flight simultaneously and every requested background updater fired; distinct = distinct workload program."
+	r.Rule = "workload programs: 1-3 OIDC filters (static or discovered endpoints, static JWKS or fetcher with 1 s refresh, literal secret or Kubernetes secret reference, optional watched CA file with 10-30 ms refresh) on the shared memory store or Redis, assembled with the real session-store factory, TLS pool and JWKS provider behind server.ExtAuthZFilter.Check; 8-64 goroutines x 3-12 requests of kinds {no cookie, login + fresh session, wait for expiry + refresh, logout, excluded path}, every third request under one of two sessions per filter that all goroutines share (parallel requests of one browser, including concurrent refreshes of one session); background goroutines: secret reconcile every 3 ms, CA file rewrite every 15 ms, key publication every 20 ms. Built with -race, GORACE halt_on_error=0. Oracle: race-detector reports canonicalised to the unordered pair of innermost authservice frames with access kinds; recovered panics; a 120 s watchdog (expiry = inconclusive, exit 2). Non-trivial = at least two checks were in flight simultaneously and every requested background updater fired; distinct = distinct workload program."
 	r.Assumptions = []string{"the race detector reports only races between accesses that both execute in the run; paths the workload never takes are invisible", "deadlock freedom is observed, not proven"}
 	parts := map[string]func(*sim.Case){"workloads": c16Prop, "probe": c16Probe}
 	if r.Replay != "" {
